@@ -2,6 +2,7 @@ CONSTANTS
   Dev = {"PlusInUnicodeEscape"}
   Alphabet <- NoAlphabet
   MaxLen = 0
+  Prune = FALSE
   DepthProbe = {}
 SPECIFICATION TSpec
 INVARIANTS AllExplained
